@@ -307,13 +307,13 @@ AnyT.methods = {'keys': lambda ex, v, a, kw: ex.fresh(SeqOf(Key), 'state_keys')}
 DISPATCH_B = {'_is_namedtuple': is_nt, '_NamedTuple': NT_MARK, 'dict': TypeTag('dict'), 'str': TypeTag('str'),
               '_record_path': Handler('_record_path', lambda ex, a, kw: (NONEV, lambda: None), 'error-path bookkeeping only (push / pop of the name)')}
 to_sd_dispatch = function(
-  F + '::to_state_dict', params=[('target', AnyT)], free=[('_STATE_DICT_REGISTRY', Registry), ('_NamedTuple', TyObj)], returns=AnyT,
+  F + '::to_state_dict', params=[('target', AnyT)], free=[('_STATE_DICT_REGISTRY', Registry)], returns=AnyT,
   ensures=[f"implies(not ({REGKEY} in _STATE_DICT_REGISTRY), result == target)",          # unregistered types are leaves: returned as they are
            f"implies({REGKEY} in _STATE_DICT_REGISTRY, result == apply_to_state_dict_fn(_STATE_DICT_REGISTRY[{REGKEY}].to, target))"],
   invariants={0: []},      # the loop only asserts that the keys of a dict-shaped state are strings
   bindings=DISPATCH_B, modifies=[], props=('C10',))
 from_sd_dispatch = function(
-  F + '::from_state_dict', params=[('target', AnyT), ('state', AnyT), ('name', Key)], free=[('_STATE_DICT_REGISTRY', Registry), ('_NamedTuple', TyObj)], returns=AnyT,
+  F + '::from_state_dict', params=[('target', AnyT), ('state', AnyT), ('name', Key)], free=[('_STATE_DICT_REGISTRY', Registry)], returns=AnyT,
   ensures=[f"implies(not ({REGKEY} in _STATE_DICT_REGISTRY), result == state)",           # a leaf is replaced by the stored value
            f"implies({REGKEY} in _STATE_DICT_REGISTRY, result == apply_from_state_dict_fn(_STATE_DICT_REGISTRY[{REGKEY}].frm, target, state))"],
   bindings=DISPATCH_B, modifies=[], props=('C10',))
